@@ -19,6 +19,7 @@ import Mathlib.Tactic.NormNum
 
 set_option linter.unusedSectionVars false
 set_option linter.unusedSimpArgs false
+set_option linter.unusedVariables false
 set_option linter.unusedTactic false
 set_option linter.unreachableTactic false
 set_option linter.unnecessarySeqFocus false
@@ -171,8 +172,11 @@ theorem C09_end_gradient_zero (hn : 1 ≤ n) :
   · simp [bandGradient, show 0 < n by omega]
   · simp [bandGradient, show n - 1 < n by omega]
 
-/-- interior rows: spring row plus the perpendicular part of the *true* gradient of that image -/
-theorem interior_row (i : Nat) (h1 : 1 ≤ i) (h2 : i + 1 < n) :
+/-- Assembly of the force: every interior row `i` (`1 ≤ i ≤ n−2`) of the band gradient is the spring
+    row of that image plus `perp` of the *true* gradient the potential returned for that image,
+    taken against that image's tangent (the zero-filling of the end rows of the potential
+    gradient does not touch interior images). -/
+theorem C09_interior_row (i : Nat) (h1 : 1 ≤ i) (h2 : i + 1 < n) :
     (bandGradient c1 sqrt cut n ks band fg).2[i]? =
       some (vadd ((springRows c1 (distances sqrt band) ks
                     (tangents sqrt n band (fg.map (·.1)))).getD (i - 1) [])
@@ -289,7 +293,7 @@ theorem C09_nudged_orthogonal (cut : α) (hc : 0 < cut) (v t : List α) (hl : v.
   ring
 
 /-- `perp v τ` plus the part it removed is `v`; above the cut-off the removed part is the projection
-    `(v·τ/τ·τ) τ` — with `interior_row`: the non-spring part of an interior gradient row is the
+    `(v·τ/τ·τ) τ` — with `C09_interior_row`: the non-spring part of an interior gradient row is the
     true gradient with its along-band component removed.  Below the cut-off (coincident images,
     zero tangent) the code returns the zero vector. -/
 theorem C09_nudged_decomposition (cut : α) (v t : List α) (hl : v.length = t.length) :
@@ -361,6 +365,21 @@ theorem C09_tangent_upwind (d : Nat) (pd : List (List α)) (ed e : List α) (i :
     simp only [rawTangent]
     rw [if_neg (by omega), if_neg (by omega), if_pos h, if_neg (by omega), if_neg (not_le.2 hlt)]
   · omega
+
+/-- Row `j` of `find_tangent_differences` belongs to interior image `j+1`: it is the normalised
+    `rawTangent` of that image, built from `posDiffs band` whose row `i` is `xᵢ − xᵢ₊₁`
+    (pointing from the next image back to image `i`). -/
+theorem C09_tangent_rows (sqrt : α → α) (n : Nat) (band : List (List α)) (e : List α) (j : Nat)
+    (hj : j < n - 2) :
+    (tangents sqrt n band e)[j]? =
+      some (normalise sqrt (rawTangent (band.getD 0 []).length (posDiffs band) (ediffs e) e (1 + j))) ∧
+    ∀ (i : Nat) (a b : List α), band[i]? = some a → band[i + 1]? = some b →
+      (posDiffs band)[i]? = some (vneg (vsub b a)) := by
+  refine ⟨by simp [tangents, List.getElem?_range', hj], ?_⟩
+  intro i a b ha hb
+  simp only [posDiffs, List.getElem?_zipWith_eq_some]
+  exact ⟨a, b, ha, by simpa using hb, rfl⟩
+
 
 /-- After normalisation a tangent is the zero vector (exactly when the selected difference is
     zero) or a unit vector. -/
